@@ -313,19 +313,9 @@ def _associate(c: Contract, mod, eq):
 
     idx_syms = {i for a in eq.atoms(sp.Indexed) for i in a.indices if isinstance(i, sp.Idx)}
     if pending:
-        # counting rule: ONE parameter without a symbol, result symbol named by the decorator, ONE law symbol left over
         p = pending[0]
-        left = [s for s in plain_free() if s != (c.out_spec if c.out_kind == "sym" else None)]
-        ok = len(pending) == 1 and c.out_kind in ("sym", "fun") and len(left) == 1
-        if ok and p.kind == "dim":
-            d = getattr(left[0], "dimension", None)
-            ok = d is not None and _dims_equiv(d, p.spec)
-        if not ok:
-            return (f"parameter {p.name}: the decorator names no law symbol and the module has no law symbol called "
-                    f"'{p.name.rstrip('_')}' (association would be a guess)")
-        amap[p.name] = left[0]
-        hows[p.name] = "only-symbol-left"
-        used.add(left[0])
+        return (f"parameter {p.name}: the decorator names no law symbol and the module has no law symbol called "
+                f"'{p.name.rstrip('_')}' (association would be a guess)")
     # result
     atoms_all = set(syms) | set(bases) | {a for a in applied}
     # arguments of applied functions are symbols too (already in syms)
@@ -677,6 +667,26 @@ def explog_axioms(tr: Tr, exprs):
         b, x = p.args
         facts.append(z3.Implies(tr.tr(b) > 0, tr.tr(p) > 0))
         used.add("b**x > 0 for b > 0")
+        if b.is_Pow and not b.exp.is_Integer:
+            bb, xx = b.args
+            flat = sp.Pow(bb, sp.cancel(xx * x))
+            if not (flat.is_Pow and flat.exp == x and flat.base == b):
+                try:
+                    facts.append(z3.Implies(tr.tr(bb) > 0, tr.tr(p) == tr.tr(flat)))
+                    used.add("(b**x)**y = b**(x*y) for b > 0")
+                except Unsupported:
+                    pass
+    # congruence of uninterpreted terms: equal arguments, equal values
+    apps = sorted(_opaque_apps(exprs), key=str)
+    for i, a1 in enumerate(apps):
+        for a2 in apps[i + 1:]:
+            if a1.func == a2.func and len(a1.args) == len(a2.args):
+                try:
+                    facts.append(z3.Implies(z3.And([tr.tr(x) == tr.tr(y) for x, y in zip(a1.args, a2.args)]),
+                                            tr.tr(a1) == tr.tr(a2)))
+                    used.add("congruence: f(a) = f(b) when a = b")
+                except Unsupported:
+                    pass
     return facts, sorted(used)
 
 
@@ -703,6 +713,12 @@ def congruence(exprs, rounds=3):
         groups = {}
         for a in apps:
             groups.setdefault((a.func, len(a.args)), []).append(a)
+        # principal roots of equal bases are the same term as well
+        roots = set()
+        for e in exprs:
+            roots |= {a for a in e.atoms(sp.Pow) if a.exp.is_Rational and not a.exp.is_Integer}
+        for a in sorted(roots, key=lambda a: (sp.count_ops(a), str(a))):
+            groups.setdefault(("root", a.exp), []).append(a)
         rep = {}
         for (_f, _n), items in groups.items():
             reps = []
@@ -963,12 +979,15 @@ def _term_scale(x):
 
 
 # ---------------------------------------------------------------------------------- replay support (used by scripts)
-def replay_point(modname: str, fname: str, law_attr: str, args: dict, op: str = ""):
+def replay_point(modname: str, fname: str, law_attr: str, args: dict, op: str = "", _contract=None):
     """Executed by `check --replay`: call the REAL decorated function on real Quantities and assert the law residual.
 
     args: {param: ("q", si_value, prefix) | ("f", value) | ("i", value) | ("list", [entries...])}"""
-    mod = importlib.import_module(modname)
-    c = build_contract(mod, fname)
+    if _contract is not None:
+        c = _contract
+    else:
+        mod = importlib.import_module(modname)
+        c = build_contract(mod, fname)
     assert not c.reason, f"contract cannot be formed any more: {c.reason}"
     hit = [(n, e, a) for n, e, a in c.laws if n == law_attr]
     assert hit, f"equation {law_attr} not found"
@@ -1149,6 +1168,18 @@ def symbolic_function(c: Contract, law_attr, eq, assoc, rng) -> tuple[str, list,
     return "undecided", obs, "", rebound_all, axioms_all
 
 
+def reeval(e):
+    """Rebuild bottom-up so that nodes the law author left unevaluated (e.g. an exponent written 1/4 with
+    evaluate=False) are auto-evaluated by SymPy (value preserving)."""
+    e = sp.sympify(e)
+    if not e.args or isinstance(e, sp.Atom):
+        return e
+    try:
+        return e.func(*[reeval(a) for a in e.args])
+    except Exception:  # noqa: BLE001
+        return e
+
+
 class FloatOnly(Exception):
     """Residual carries machine floats and does not vanish exactly: equality only to numerical precision."""
 
@@ -1173,12 +1204,12 @@ def _discharge_path(c, law_attr, eq, pairs, n_by_base, val, cond, pname, args, r
     t_all = time.time()
     final = None
     for vname, conv in variants:
-        R, valc, H = conv(R_raw), conv(val), conv(H_raw)
-        pc = [conv(x) for x in cond]
+        R, valc, H = reeval(conv(R_raw)), reeval(conv(val)), reeval(conv(H_raw))
+        pc = [reeval(conv(x)) for x in cond]
         goals, abs_alt = [R], None
         if c.op == "abs":
             goals = [R, sp.Abs(valc) - valc]  # a magnitude: a solution or minus a solution, and non-negative
-            abs_alt = [conv(Rm_raw), sp.Abs(valc) - valc]
+            abs_alt = [reeval(conv(Rm_raw)), sp.Abs(valc) - valc]
         # ---- D0: all real arguments (with the declared sign assumptions), wherever the terms are defined
         ob0, m0, tr0, used = prove_zero(pname, goals, assume=pc, domain_exprs=[valc], signature=sig, abs_alt=abs_alt)
         _merge(axioms_all, used)
@@ -1217,6 +1248,13 @@ def _discharge_path(c, law_attr, eq, pairs, n_by_base, val, cond, pname, args, r
             ob.replay = {"reproduced": False, "script": None, "message": "search for a concrete input timed out"}
         if ob.replay.get("reproduced"):
             ob.detail += " | failing input: " + str(ob.replay.get("inputs"))
+        elif tr1 is not None and any(not isinstance(e, sp.Symbol) for e in tr1.atom_exprs.values()):
+            # the countermodel assigns free values to uninterpreted terms (exp, log, symbolic powers, ...): it is only a
+            # candidate; without a failing input reproduced on the real function this is NOT a refutation
+            ob.verdict = UNKNOWN
+            ob.detail = ("countermodel over uninterpreted terms, not reproduced on the real function ("
+                         + str(ob.replay.get("message", ""))[:120] + ") | " + ob.detail)[:600]
+            ob.replay = None
         return ob
     ob.detail = (ob.detail + f" | D0: {ob0.verdict}")[:400]
     return ob
@@ -1285,8 +1323,11 @@ def _concretize(c: Contract, law_attr, eq, model, tr, args, cond, R, H, rng) -> 
                 else:
                     entries[p.name] = _entry(p, pt[a], rng)
             try:
+                if _prescreen_small(R, pt):
+                    last = "symbolic residual is ~0 at the candidate point"
+                    continue
                 with _quiet():
-                    replay_point(c.modname, c.fname, law_attr, entries, c.op)
+                    replay_point(c.modname, c.fname, law_attr, entries, c.op, _contract=c)
             except AssertionError as e:
                 # make sure the point is inside the domain the obligation was posed on: the law has a real solution
                 if not _law_satisfiable_at(H, pt):
@@ -1300,6 +1341,18 @@ def _concretize(c: Contract, law_attr, eq, model, tr, args, cond, R, H, rng) -> 
         except Exception as e:
             last = f"{type(e).__name__}: {e}"[:200]
     return {"reproduced": False, "script": None, "message": last}
+
+
+def _prescreen_small(R, pt) -> bool:
+    """Cheap filter before calling the real function: is the symbolic residual numerically ~0 at pt?"""
+    try:
+        r = numeric_constants(sp.sympify(R).xreplace({s: sp.Float(v) for s, v in pt.items()}))
+        r = r.xreplace({s: sp.Float(1.0) for s in r.free_symbols})
+        terms = [abs(complex(sp.N(t))) for t in sp.Add.make_args(r)]
+        v = abs(complex(sp.N(r)))
+        return v <= 1e-9 * max(terms + [1e-300])
+    except Exception:  # noqa: BLE001
+        return False
 
 
 def _law_satisfiable_at(H, pt) -> bool:
@@ -1331,9 +1384,14 @@ def _law_satisfiable_at(H, pt) -> bool:
         return True
 
 
+def _wants_int(p: Param) -> bool:
+    a = _ann_str(p)
+    return a == "int" or "[int]" in a or bool(getattr(p.target, "is_integer", False))
+
+
 def _entry(p: Param, v: float, rng):
-    if p.target is not None and getattr(p.target, "is_integer", False) or _ann_str(p) == "int":
-        return ("i", int(round(v)))
+    if _wants_int(p):
+        return ("i", int(round(v)) or 1)
     dim = param_dimension(p)
     if _is_dimensionless(dim) or _ann_str(p) == "float":
         return ("f", float(v))
@@ -1355,7 +1413,7 @@ def bounded_function(c: Contract, law_attr, eq, assoc, rng, npoints: int) -> dic
             def one():
                 v = math.exp(rng.uniform(math.log(0.05), math.log(20)))
                 tgt = p.target
-                if _ann_str(p) == "int" or (isinstance(tgt, sp.Symbol) and tgt.is_integer):
+                if _wants_int(p):
                     v = float(rng.randint(1, 6))
                 return _entry(p, v, rng)
             entries[p.name] = ("list", [one() for _ in range(n)]) if p in seqs else one()
